@@ -139,7 +139,7 @@ fn diff(a: &Obs, b: &Obs) -> Option<&'static str> {
 // transformations on token lists
 // ---------------------------------------------------------------------------
 
-pub const TRANSFORMS: [&str; 17] = [
+pub const TRANSFORMS: [&str; 18] = [
     "lower-case words",
     "upper-case words",
     "alternating-case words",
@@ -157,6 +157,7 @@ pub const TRANSFORMS: [&str; 17] = [
     "long trailing comment (a URL with a word of 60 letters, quotes, keywords)",
     "line indented by 256 blanks",
     "blank runs of 300 blanks",
+    "blank removed next to = + * / < > , ; ( )",
 ];
 
 fn in_data_flags(toks: &[Tok]) -> Vec<bool> {
@@ -235,6 +236,30 @@ fn sites(toks: &[Tok], t: usize) -> Vec<usize> {
         3 | 4 => (0..toks.len()).filter(|i| toks[*i].kind == TokKind::Blank && !data[*i]).collect(),
         5 | 7 | 8 => (0..toks.len()).filter(|i| toks[*i].kind == TokKind::Eol).collect(),
         16 => (0..toks.len()).filter(|i| toks[*i].kind == TokKind::Blank && !data[*i]).collect(),
+        17 => {
+            // a blank with a symbol of the set on one side and anything but a line end / comment on the other; a blank
+            // between a name and "(" stays (A (1) is not written by anyone), only keywords lose it
+            let sym = |t: &Tok| t.kind == TokKind::Symbol && matches!(t.text.as_str(), "=" | "+" | "*" | "/" | "<" | ">" | "<=" | ">=" | "<>" | "," | ";" | "(" | ")");
+            const KW: [&str; 16] = ["NOT", "AND", "OR", "MOD", "IF", "ELSEIF", "WHILE", "UNTIL", "CASE", "TO", "STEP", "THEN", "PRINT", "IS", "SELECT", "LOOP"];
+            (1..toks.len().saturating_sub(1))
+                .filter(|i| toks[*i].kind == TokKind::Blank && !data[*i])
+                .filter(|i| {
+                    let (p, n) = (&toks[*i - 1], &toks[*i + 1]);
+                    if matches!(n.kind, TokKind::Eol | TokKind::Comment) || matches!(p.kind, TokKind::Eol) {
+                        return false;
+                    }
+                    if n.kind == TokKind::Symbol && n.text == "(" {
+                        return (p.kind == TokKind::Word && KW.iter().any(|k| p.text.eq_ignore_ascii_case(k))) || sym(p);
+                    }
+                    // after ")" only before another symbol: whether `(A + 1)TO 5` needs the blank is not something the
+                    // property decides (the implementation wants it unless the whole operand is parenthesised)
+                    if p.kind == TokKind::Symbol && p.text == ")" {
+                        return sym(n);
+                    }
+                    sym(p) || sym(n)
+                })
+                .collect()
+        }
         15 => lines_of(toks).into_iter().filter(|(s, e)| toks[*s..*e].iter().any(|t| t.kind != TokKind::Blank)).map(|(s, _)| s).collect(),
         6 | 14 => {
             // Eol tokens of non-empty lines that do not end in a comment and hold no DATA statement
@@ -329,6 +354,7 @@ fn apply(toks: &[Tok], t: usize, chosen: &[usize]) -> String {
                 out.push(x.clone());
             }
             16 => out.push(tok(x.kind, &" ".repeat(300))),
+            17 => {}
             7 => out.push(tok(x.kind, "\r\n")),
             8 => out.push(tok(x.kind, "\r")),
             9 => out.push(tok(TokKind::Symbol, " : ")),
@@ -489,7 +515,7 @@ pub fn drive(tier: &str) -> i32 {
     }
     groups.push(super::run_text_group(&mut run, &pool, "names with every letter of the alphabet", &alpha, 4, &extra));
     let mut ev = Evidence::new("exploration");
-    ev.set("rule", "for every text of the groups: 17 layout transformations (words lower / upper / alternating case outside strings, comments and DATA; blank runs tripled / turned into a tab; a blank line after every line; a trailing comment on every line without DATA or comment; line ends CR LF / CR; newline -> colon between two simple statements; colon -> newline between statements of a line without IF / CASE / DATA; blanks around separators doubled where a blank is adjacent; word case alternating from one occurrence to the next; a blank before and after every statement colon; a long trailing comment holding a URL with a word of 60 letters, quotes and keywords; lines indented by 256 blanks; blank runs of 300 blanks — so that statements start beyond column 255), each applied at all eligible sites, at the even sites, at the odd sites and (texts with few sites) at every single site, plus all of them at once. Observables compared with the original: the parse tree's Debug rendering with positions erased and letters outside string literals upper-cased, the verdict class of parser / checker / run (error kind, run-time code), stdout and LPT1.");
+    ev.set("rule", "for every text of the groups: 18 layout transformations (words lower / upper / alternating case outside strings, comments and DATA; blank runs tripled / turned into a tab; a blank line after every line; a trailing comment on every line without DATA or comment; line ends CR LF / CR; newline -> colon between two simple statements; colon -> newline between statements of a line without IF / CASE / DATA; blanks around separators doubled where a blank is adjacent; word case alternating from one occurrence to the next; a blank before and after every statement colon; a long trailing comment holding a URL with a word of 60 letters, quotes and keywords; lines indented by 256 blanks; blank runs of 300 blanks — so that statements start beyond column 255; the blank removed next to = + * / < > , ; and next to a parenthesis that follows or precedes a keyword or a symbol), each applied at all eligible sites, at the even sites, at the odd sites and (texts with few sites) at every single site, plus all of them at once. Observables compared with the original: the parse tree's Debug rendering with positions erased and letters outside string literals upper-cased, the verdict class of parser / checker / run (error kind, run-time code), stdout and LPT1.");
     ev.set("exhaustive", !run.capped);
     ev.set("groups", json!(groups));
     ev.set("distinct_nontrivial", run.nontrivial);
